@@ -66,8 +66,9 @@ META = dict(
     note="Trusted: Lean kernel; axioms propext/Classical.choice/Quot.sound; the value model of results.py (C10) and the "
          "transcription of copy()/__getstate__/__setstate__/__add__/__radd__; the heap model (PRHeap.lean) is tied to the "
          "class only by a sharing table (3 kinds of copy x 12 probes), the deep models (PRHeapDeep.lean: deepcopyN, "
-         "deepObjN) by the stream deep-sharing (is-identity and append probes on chains of nested groups, depths 1-6, "
-         "deepcopy()/copy.deepcopy/pickle) and by the frame oracle; the CPython copy/pickle protocol dispatch "
+         "deepObjN) by the streams deep-sharing (is-identity and append probes on chains of nested groups, depths 1-6, "
+         "deepcopy()/copy.deepcopy/pickle) and tree-sharing (random nested shapes with named and unnamed groups: for every "
+         "access path, is the copy's object the original's, and which paths of the copy lead to the same object) and by the frame oracle; the CPython copy/pickle protocol dispatch "
          "(copy._reconstruct, memo discipline, order args -> __new__ -> memo -> state -> __setstate__) is transcribed by "
          "hand into deepObjN, not verified; deepcopyN stores the rebuilt token list once after the loop; the statement-by-statement "
          "loop (deepcopyLoop, store after each recursive call) is proved equal to it (deepcopyLoop_eq); fuel-bounded recursion, "
@@ -535,6 +536,56 @@ def deep_share_real(pp, kind, d):
     return out
 
 
+def gen_shape(rng, depth=0, name=""):
+    """a group: ["g", name-in-parent, kids]; kids are strings or groups; names unique per parent"""
+    kids, pool = [], ["a", "b", "c", "d"]
+    rng.shuffle(pool)
+    for _ in range(rng.randint(1, 3)):
+        if depth < 3 and rng.random() < 0.55:
+            kids.append(gen_shape(rng, depth + 1, pool.pop() if rng.random() < 0.6 else ""))
+        else:
+            kids.append(rng.choice(["x", "y", "0"]))
+    return ["g", name, kids]
+
+
+def shape_sexp(t):
+    return t if isinstance(t, str) else [Sym("g"), t[1]] + [shape_sexp(k) for k in t[2]]
+
+
+def build_shape(pp, t):
+    kids = [k if isinstance(k, str) else build_shape(pp, k) for k in t[2]]
+    r = pp.ParseResults(kids)
+    for k, obj in zip(t[2], kids):
+        if not isinstance(k, str) and k[1]:
+            r[k[1]] = obj
+    return r
+
+
+def shape_paths(pp, r, depth=0):
+    """the nested groups of r by access path, depth first, token steps before name steps (as PRHeapDeep.lean `paths`)"""
+    out = [r]
+    if depth >= 12:
+        return out
+    for t in r:
+        if isinstance(t, pp.ParseResults):
+            out += shape_paths(pp, t, depth + 1)
+    for k in r.keys():
+        v = r[k]
+        if isinstance(v, pp.ParseResults):
+            out += shape_paths(pp, v, depth + 1)
+    return out
+
+
+def tree_share_real(pp, kind, shape):
+    r = build_shape(pp, shape)
+    c = make_copy(r, kind)
+    po, pc = shape_paths(pp, r), shape_paths(pp, c)
+    if len(po) != len(pc):
+        return "paths differ"
+    first = [next(j for j, y in enumerate(pc) if y is x) for x in pc]
+    return dumps([[a is b for a, b in zip(po, pc)], first])
+
+
 def cont_share_real(pp):
     """r = [(<['a']>, 'x', <['b']>), <['a']>] (a tuple token holding two groups, the first group again as a token);
     c = r.deepcopy(); see PRHeapDeepC.lean `contShare`"""
@@ -670,7 +721,12 @@ def run(ctx):
                          outcome_of=lambda c, o: c["kind"])
     d0c = ctx.correspond("container-sharing", [{"shape": "[(g0,'x',g1), g0]", "kind": "deepcopy"}], [sx(Sym("prcontshare"))],
                          [dumps([bool(b) for b in cont_share_real(pp)])], outcome_of=lambda c, o: c["kind"])
-    d0 = list(d0) + list(d0b) + list(d0c)
+    rng = ctx.subrng("tree-sharing")
+    tcases = [{"kind": k, "shape": gen_shape(rng)} for _ in range(ctx.budget(40, 400)) for k in sorted(DEEP)]
+    d0d = ctx.correspond("tree-sharing", tcases, [sx(Sym("prtreeshare"), c["kind"], shape_sexp(c["shape"])) for c in tcases],
+                         [tree_share_real(pp, c["kind"], c["shape"]) for c in tcases],
+                         nontrivial=lambda c, o: o.count("T") + o.count("F") > 2, outcome_of=lambda c, o: c["kind"])
+    d0 = list(d0) + list(d0b) + list(d0c) + list(d0d)
     # ---- (a) preserve: every kind of copy has the views of the original; model = views of the extracted state ----
     rng = ctx.subrng("preserve")
     cases, lines, impl = [], [], []
